@@ -1,6 +1,8 @@
 package main
 
 import (
+	"sync"
+	"sync/atomic"
 	"math/big"
 	"math/rand/v2"
 	"net/http"
@@ -21,6 +23,7 @@ func init() {
 		Assumptions: []string{"frozen library clock (hook)", "only configurations inside the statement's proviso are decided: periods >= 1s, burst <= 5*average, sources <= capacity"},
 		Parts: []Part{
 			{Name: "bound", Shards: 12, Fn: c03Bound},
+			{Name: "conc", Race: true, Shards: 4, Fn: c03Conc},
 		},
 	})
 }
@@ -317,4 +320,68 @@ func c03Bound(c *Ctx) {
 		}
 	})
 	c.Require("histories_nontrivial", 2)
+}
+
+// c03Conc: many goroutines offer requests of ONE source at a frozen instant: whatever the interleaving, the amount
+// admitted at that instant is bounded by burst (+1 of slack in the statement), for every rate of the set.
+func c03Conc(c *Ctx) {
+	c.Cases("conc", c.N(40, 1200), func(i int, r *rand.Rand) {
+		rs := genRates(r, 2)
+		var minBurst int64 = 1 << 62
+		for _, x := range rs {
+			if x.Burst < minBurst {
+				minBurst = x.Burst
+			}
+		}
+		freeze(baseTime.Add(time.Duration(r.Int64N(1e9))))
+		defer unfreeze()
+		var admitted atomic.Int64
+		tl, err := ratelimit.New(http.HandlerFunc(func(w http.ResponseWriter, req *http.Request) {
+			a, _ := strconv.ParseInt(req.Header.Get("X-Amt"), 10, 64)
+			admitted.Add(a)
+		}), hdrExtractor, mkRateSet(rs))
+		if err != nil {
+			return
+		}
+		G := 16
+		per := int(2*minBurst)/G + 20
+		rounds := 1 + r.IntN(3)
+		for round := 0; round < rounds; round++ {
+			before := admitted.Load()
+			var wg sync.WaitGroup
+			start := make(chan struct{})
+			for g := 0; g < G; g++ {
+				wg.Add(1)
+				go func(g int) {
+					defer wg.Done()
+					<-start
+					for k := 0; k < per; k++ {
+						req := httptest.NewRequest("GET", "http://x.test/", nil)
+						req.Header.Set("X-Src", "one-source")
+						req.Header.Set("X-Amt", "1")
+						tl.ServeHTTP(httptest.NewRecorder(), req)
+					}
+				}(g)
+			}
+			close(start)
+			wg.Wait()
+			got := admitted.Load() - before
+			c.Count("conc_requests", int64(G*per))
+			// at one instant nothing refills: at most what was in the bucket (<= burst), statement slack +1
+			if got > minBurst+1 {
+				c.Violation("conc/bound-exceeded", sfmt("rates %v: %d goroutines offered %d single-token requests of one source at one frozen instant; %d were admitted, the smallest burst is %d", rs, G, G*per, got, minBurst), map[string]any{"rates": rs})
+				return
+			}
+			if round == 0 && got != minBurst {
+				// a fresh source holds exactly its burst: fewer admissions would mean lost tokens (C13's concern); only counted
+				c.Count("conc_rounds_with_fewer_than_burst", 1)
+			}
+			// next round after a partial refill
+			advance(time.Duration(r.Int64N(int64(rs[0].Period))))
+		}
+		c.Eval()
+		c.Nontrivial(sfmt("conc/%v/%d", rs, rounds))
+		c.Count("conc_nontrivial", 1)
+	})
+	c.Require("conc_nontrivial", 2)
 }
